@@ -194,7 +194,7 @@ def run(tier):
             cov["kind:" + k] += 1
         cov["faulty_files:%d" % min(c["nfaulty"], 3)] += 1
     need = (["input:" + r for r in ("in", "sub", "dlua", "file")] + ["output:" + o for o in ("none", "same", "exfile", "exdir", "exdirdot", "newdir", "newext")]
-            + ["cfg:" + x for x in ("empty", "default", "rootskip", "rootapply", "retain") + RC_CFGS] + ["failfast:True", "failfast:False"] + ["kind:" + k for k in KINDS]
+            + ["cfg:" + x for x in ("empty", "default", "rootskip", "rootapply", "retain", "aliasdup") + RC_CFGS] + ["failfast:True", "failfast:False"] + ["kind:" + k for k in KINDS]
             + ["faulty_files:0", "faulty_files:1", "faulty_files:2"])
     floor = 10 if tier == "quick" else 100
     for n in need:
